@@ -273,6 +273,82 @@ struct Machine {
       viol("C14", std::string("shared-grid-modified/") + curStep,
            "the vector behind a shared grid changed");
     walkAll();
+    evalWritten();
+  }
+
+  // ---------------------------------------------------- evaluation (C02)
+  // After every step each written, live object is evaluated at every grid
+  // point and midpoint of the whole grid and compared with its own stored
+  // pieces, so that evaluation is also observed *after* assignments, moves
+  // and in-place updates of an object that has been evaluated before.
+  template <size_t o>
+  void evalCheck(size_t i) {
+    if (!slot<o>(i).s) return;
+    const Spline<T, o> &s = *slot<o>(i).s;
+    const Den den = denote(s);
+    const Win w{s.getSupport().getStartIndex(), s.getSupport().getEndIndex()};
+    const size_t np = gridPts.size();
+    std::vector<T> forward;
+    for (size_t q = 0; q < 2 * np - 1; q++) {
+      const R xr = (q % 2 == 0) ? gridPts[q / 2]
+                                : R((gridPts[q / 2] + gridPts[q / 2 + 1]) / 2);
+      const T x = mk<T>(xr);
+      T val;
+      try {
+        val = s(x);
+      } catch (const std::exception &e) {
+        viol("C02", std::string("evaluation-throws/after-") + curStep,
+             splineStr(s) + " x=" + model::rstr(xr) + " threw " + e.what());
+        return;
+      }
+      const bool inside =
+          w.nint() > 0 && xr >= gridPts[w.start] && xr <= gridPts[w.end - 1];
+      bool ok = false;
+      std::string why;
+      if (!inside) {
+        ok = toR<T>(val) == 0;
+        if (!ok) why = "non-zero outside the support";
+      } else {
+        for (size_t k = w.start; k + 1 < w.end && !ok; k++) {
+          if (!(xr >= gridPts[k] && xr <= gridPts[k + 1])) continue;
+          const R xm = (gridPts[k] + gridPts[k + 1]) / 2;
+          const R S = hsum(pabs(midCoeffs(s, k - w.start)), rabs(xr - xm));
+          Verdict v = agreeScalar(val, model::peval(den.pc[k], xr), S);
+          ok = v.ok;
+          if (!ok) why = v.why;
+        }
+      }
+      if (!ok) {
+        viol("C02", std::string("wrong-value/after-") + curStep,
+             splineStr(s) + " x=" + model::rstr(xr) + ": " + why);
+        return;
+      }
+      c.count("c02:evaluations-in-history");
+      forward.push_back(val);
+    }
+    // C14: evaluation is a read. The same abscissae in descending order must
+    // give bit-identical values (an earlier evaluation must not influence a
+    // later one).
+    for (size_t q = 2 * np - 1; q-- > 0;) {
+      const R xr = (q % 2 == 0) ? gridPts[q / 2]
+                                : R((gridPts[q / 2] + gridPts[q / 2 + 1]) / 2);
+      const T val = s(mk<T>(xr));
+      if (!sameBits(val, forward[q])) {
+        viol("C14", "evaluation-depends-on-evaluation-order",
+             splineStr(s) + " x=" + model::rstr(xr) + " gave " +
+                 model::rstr(toR<T>(forward[q])) + " in an ascending sweep and " +
+                 model::rstr(toR<T>(val)) + " in a descending sweep");
+        return;
+      }
+      c.count("c14:evaluations-repeated");
+    }
+  }
+  void evalWritten() {
+    for (auto &wsl : writeSet) {
+      if (wsl.second >= NSLOT) continue;
+      dispatchOrder<MAXO>(wsl.first,
+                          [&](auto O) { evalCheck<O.value>(wsl.second); });
+    }
   }
 
   // ------------------------------------------------------------ creation
